@@ -156,6 +156,7 @@ inline constexpr std::size_t REDZONE = 64;
 inline constexpr unsigned char CANARY = 0xC5;
 inline constexpr int MAX_BLOCKS = 3000;
 inline constexpr std::size_t MAX_BLOCK_BYTES = std::size_t{8} << 20;  // larger requests end the run as "capped"
+inline constexpr std::size_t ABSURD_BYTES = std::size_t{1} << 40;       // requests beyond this are a wrapped-around size
 
 struct Heap
 {
@@ -176,6 +177,7 @@ struct Heap
     std::uint8_t cur_kind = BK_DATA;  // label for non-table blocks requested by the current op
     std::uint32_t step = 0;
     bool capped = false;
+    bool absurd = false;
     // counters (per worker lifetime)
     std::uint64_t n_alloc = 0, n_free = 0, n_fault = 0, bytes_alloc = 0;
     std::uint64_t n_place[PL_COUNT] = {};
@@ -193,6 +195,7 @@ struct Heap
         fault_fired = false;
         step = 0;
         capped = false;
+        absurd = false;
     }
 
     void begin_op(int fail_k, std::uint8_t kind)
@@ -256,6 +259,12 @@ struct Heap
             fault_fired = true;
             ++n_fault;
             if (log) log->add(0xFA17);
+            throw SimBadAlloc{};
+        }
+        if (bytes > ABSURD_BYTES)
+        {
+            // no operation of a run can legitimately need this much: a size computation wrapped around
+            absurd = true;
             throw SimBadAlloc{};
         }
         if (nblocks >= MAX_BLOCKS - 1 || bytes > MAX_BLOCK_BYTES)
